@@ -71,7 +71,84 @@ pub fn run(key: &str, a: &[String], out: &mut Out) {
                 Some(Some(Ordering::Greater)) => "greater",
             })]);
         }
+        "C05.limA" | "C05.dryA" => {
+            // <alias|clone> table conn A fl fr fo limit: both operands are the same function; `alias` passes the
+            // SAME object twice, `clone` an equal copy. Plain (non-fused) entry points when all flips are absent.
+            let x = Bdd::from_string(&a[3]);
+            let y = x.clone();
+            let (l, r): (&Bdd, &Bdd) = if a[0] == "alias" { (&x, &x) } else { (&x, &y) };
+            let (fl, fr, fo) = (parse_flip(&a[4]), parse_flip(&a[5]), parse_flip(&a[6]));
+            let noflip = fl.is_none() && fr.is_none() && fo.is_none();
+            let limit: usize = a[7].parse().unwrap();
+            let unres = catch(|| if noflip { Bdd::binary_op(l, r, table_fn(&a[1])) }
+                else { Bdd::fused_binary_flip_op((l, flip_var(fl)), (r, flip_var(fr)), flip_var(fo), table_fn(&a[1])) });
+            if key == "C05.limA" {
+                let lim = catch(|| if noflip { Bdd::binary_op_with_limit(limit, l, r, table_fn(&a[1])) }
+                    else { Bdd::fused_binary_flip_op_with_limit(limit, (l, flip_var(fl)), (r, flip_var(fr)), flip_var(fo), table_fn(&a[1])) });
+                out.case(key, a, &[fmt_lim(&lim), fmt_res_bdd(&unres)]);
+            } else {
+                let dry = catch(|| if noflip { Bdd::check_binary_op(limit, l, r, table_fn(&a[1])) }
+                    else { Bdd::check_fused_binary_flip_op(limit, (l, flip_var(fl)), (r, flip_var(fr)), flip_var(fo), table_fn(&a[1])) });
+                let full = catch(|| if noflip { Bdd::check_binary_op(usize::MAX, l, r, table_fn(&a[1])) }
+                    else { Bdd::check_fused_binary_flip_op(usize::MAX, (l, flip_var(fl)), (r, flip_var(fr)), flip_var(fo), table_fn(&a[1])) });
+                out.case(key, a, &[fmt_dry(&dry), fmt_dry(&full), fmt_res_bdd(&unres)]);
+            }
+        }
+        "C05.cmpA" => {
+            // <alias|clone> A: cmp_implies of a Bdd with itself (the same object / an equal copy)
+            let x = Bdd::from_string(&a[1]);
+            let y = x.clone();
+            let res = catch(|| if a[0] == "alias" { Bdd::cmp_implies(&x, &x) } else { Bdd::cmp_implies(&x, &y) });
+            out.case(key, a, &[s(match res {
+                None => "panic",
+                Some(None) => "none",
+                Some(Some(Ordering::Less)) => "less",
+                Some(Some(Ordering::Equal)) => "equal",
+                Some(Some(Ordering::Greater)) => "greater",
+            })]);
+        }
         _ => panic!("unknown key {}", key),
+    }
+}
+
+/// limits at numeric boundaries (64-bit target), relative to a result size / task count `k`
+fn boundary_limits(k: usize) -> Vec<usize> {
+    let p = |e: u32| 1usize << e;
+    vec![p(16) - 1, p(16), p(16) + 1, p(31) - 1, p(31), p(31) + 1, p(32) - 1, p(32), p(32) + 1,
+         p(32) + k.max(1) - 1, p(32) + k, p(32) + k + 1, p(33), p(33) + k.max(1) - 1, p(40), p(48) + k, p(63), p(63) + k.max(1) - 1,
+         usize::MAX / 2, usize::MAX - 1, usize::MAX]
+}
+
+/// every limited / dry-run entry point at the numeric boundary limits
+fn boundary(table: &str, c: u32, l: &str, r: &str, fl: Option<usize>, fr: Option<usize>, fo: Option<usize>, out: &mut Out) {
+    let (lb, rb) = (Bdd::from_string(l), Bdd::from_string(r));
+    let size = catch(|| Bdd::fused_binary_flip_op((&lb, flip_var(fl)), (&rb, flip_var(fr)), flip_var(fo), table_fn(table))).map(|b| b.size()).unwrap_or(1);
+    let count = catch(|| Bdd::check_fused_binary_flip_op(usize::MAX, (&lb, flip_var(fl)), (&rb, flip_var(fr)), flip_var(fo), table_fn(table))).flatten().map(|x| x.1).unwrap_or(0);
+    let noflip = fl.is_none() && fr.is_none() && fo.is_none();
+    for limit in boundary_limits(size) {
+        if noflip { run("C05.blim", &[s(table), c.to_string(), s(l), s(r), limit.to_string()], out); }
+        run("C05.lim", &[s(table), c.to_string(), s(l), s(r), fmt_optvar(fl), fmt_optvar(fr), fmt_optvar(fo), limit.to_string()], out);
+    }
+    for limit in boundary_limits(count) {
+        if noflip { run("C05.bdry", &[s(table), c.to_string(), s(l), s(r), limit.to_string()], out); }
+        run("C05.dry", &[s(table), c.to_string(), s(l), s(r), fmt_optvar(fl), fmt_optvar(fr), fmt_optvar(fo), limit.to_string()], out);
+    }
+}
+
+/// aliasing sweep: the same function as both operands, every limit 0..size+2 / 0..count+1 and a few boundary limits
+fn sweep_alias(mode: &str, table: &str, c: u32, a: &str, fl: Option<usize>, fr: Option<usize>, fo: Option<usize>, out: &mut Out) {
+    let x = Bdd::from_string(a);
+    let size = catch(|| Bdd::fused_binary_flip_op((&x, flip_var(fl)), (&x, flip_var(fr)), flip_var(fo), table_fn(table))).map(|b| b.size()).unwrap_or(1);
+    let count = catch(|| Bdd::check_fused_binary_flip_op(usize::MAX, (&x, flip_var(fl)), (&x, flip_var(fr)), flip_var(fo), table_fn(table))).flatten().map(|x| x.1).unwrap_or(0);
+    let mut lims: Vec<usize> = (0..=(size + 2)).collect();
+    lims.extend([(1usize << 32), (1usize << 32) + size, usize::MAX]);
+    for limit in lims {
+        run("C05.limA", &[s(mode), s(table), c.to_string(), s(a), fmt_optvar(fl), fmt_optvar(fr), fmt_optvar(fo), limit.to_string()], out);
+    }
+    let mut lims: Vec<usize> = (0..=(count + 1)).collect();
+    lims.extend([(1usize << 32), usize::MAX]);
+    for limit in lims {
+        run("C05.dryA", &[s(mode), s(table), c.to_string(), s(a), fmt_optvar(fl), fmt_optvar(fr), fmt_optvar(fo), limit.to_string()], out);
     }
 }
 
@@ -381,6 +458,38 @@ pub fn gen(tier: Tier, rng: &mut Rng64, out: &mut Out) {
         if rng.chance(1, 10) { b = noncanon_variant(rng, &b); }
         let (x, y) = if rng.bool() { (a, b) } else { (b, a) };
         run("C05.cmp", &[fmt_bdd(&x), fmt_bdd(&y)], out);
+    }
+    // --- limits at numeric boundaries (2^16±1, 2^31±1, 2^32-1, 2^32, 2^32+1, 2^32+size-1, 2^32+size, 2^33, 2^40,
+    //     2^63, usize::MAX/2, usize::MAX-1, usize::MAX …) for every limited / dry-run entry point
+    {
+        // smallest instance first: x0 & true over one variable (3-node result) with limit 2^32
+        let (x0, t1) = (fmt_bdd(&bdd_of_tt(1, &[false, true])), fmt_bdd(&bdd_of_tt(1, &[true, true])));
+        boundary(&lazy_table2(8), 8, &x0, &t1, None, None, None, out);
+        boundary(&eager_table2(8), 8, &x0, &t1, Some(0), None, Some(0), out);
+    }
+    for _ in 0..(if thorough { 1500 } else { 36 }) {
+        let n = 1 + rng.below(6) as usize;
+        let f = |rng: &mut Rng64| if n <= 3 { let count = 1u64 << (1u64 << n); fmt_bdd(&bdd_of_tt(n, &tt_from_index(n, rng.below(count)))) }
+            else { fmt_bdd(&random_bdd(rng, n)) };
+        let (l, r) = (f(rng), f(rng));
+        let fs = flips(n);
+        let c = if rng.bool() { rng.below(16) as u32 } else { *rng.pick(&CONNS) };
+        let (fl, fr, fo) = if rng.bool() { (None, None, None) } else { (*rng.pick(&fs), *rng.pick(&fs), *rng.pick(&fs)) };
+        boundary(&some_table2(rng, c), c, &l, &r, fl, fr, fo, out);
+    }
+    // --- ALIASING: the same function as both operands, once as the SAME object, once as equal clones
+    for i in 0..(if thorough { 6000 } else { 110 }) {
+        let n = if i % 4 == 3 { 4 + rng.below(3) as usize } else { 1 + rng.below(3) as usize };
+        let a = if n <= 3 { let count = 1u64 << (1u64 << n); fmt_bdd(&bdd_of_tt(n, &tt_from_index(n, rng.below(count)))) }
+            else { fmt_bdd(&random_bdd(rng, n)) };
+        let fs = flips(n);
+        let c = if rng.bool() { rng.below(16) as u32 } else { *rng.pick(&CONNS) };
+        let (fl, fr, fo) = if rng.chance(1, 3) { (None, None, None) } else { (*rng.pick(&fs), *rng.pick(&fs), *rng.pick(&fs)) };
+        let table = some_table2(rng, c);
+        sweep_alias("alias", &table, c, &a, fl, fr, fo, out);
+        if thorough || i % 3 == 0 { sweep_alias("clone", &table, c, &a, fl, fr, fo, out); }
+        run("C05.cmpA", &[s("alias"), a.clone()], out);
+        run("C05.cmpA", &[s("clone"), a], out);
     }
     emit_big(rng, out);
     // --- panics come before the limit test: out-of-range flips, different variable counts, any limit
